@@ -46,9 +46,24 @@ def run(c, idx, base):
     else:
         from zope.testrunner.find import remove_stale_bytecode
         from zope.testrunner.options import get_options
-        with redirect_stdout(io.StringIO()):
-            options = get_options(['prog'] + argv, [])
-            remove_stale_bytecode(options)
+        loaded = []
+        if idx % 4 == 2:
+            # the process has modules loaded from the compiled files (an earlier --usecompiled run in this interpreter, a
+            # sourceless import by the embedding program): they are orphans on disk like any other
+            import types
+            for k, rel in enumerate(sorted(before)):
+                if rel[-4:] in ('.pyc', '.pyo'):
+                    m = types.ModuleType('vloaded_%d_%d' % (idx, k))
+                    m.__file__ = m.__cached__ = os.path.abspath(os.path.join(root, rel))
+                    sys.modules[m.__name__] = m
+                    loaded.append(m.__name__)
+        try:
+            with redirect_stdout(io.StringIO()):
+                options = get_options(['prog'] + argv, [])
+                remove_stale_bytecode(options)
+        finally:
+            for name in loaded:
+                sys.modules.pop(name, None)
         ign = sorted(options.ignore_dir)
     after = treelib.snapshot(root)
     deleted = sorted(set(before) - set(after))
